@@ -205,6 +205,27 @@ func (c *Ctx) Fail(oracle, key, format string, a ...any) {
 	}
 }
 
+// Expired reports whether the run's wall-clock budget is used up; scenario
+// bodies that enumerate a family themselves stop at it (never during a replay
+// or a re-run of a failing execution, which must stay deterministic).
+func (c *Ctx) Expired() bool {
+	if c.keepLog || c.st == nil || c.st.deadline.IsZero() {
+		return false
+	}
+	return time.Now().After(c.st.deadline)
+}
+
+// Incomplete records that a family was cut short by the budget: the run is
+// then reported as not exhaustive.
+func (c *Ctx) Incomplete(what string) {
+	if c.keepLog || c.st == nil {
+		return
+	}
+	c.st.Incomplete = append(c.st.Incomplete, what)
+	c.st.Exhaustive = false
+	c.noRerun = true // a cut-short family is not a sample for the determinism self-check
+}
+
 // Failed reports whether this execution already has a failure.
 func (c *Ctx) Failed() bool { return len(c.fails) > 0 }
 
@@ -355,6 +376,17 @@ func (cfg *Config) Thorough() bool { return cfg.Tier == "thorough" }
 var watchdogMu sync.Mutex
 var watchdogAt time.Time
 var watchdogWhat string
+
+// KeepAlive tells the hang watchdog that the current execution is making
+// progress (scenario bodies that enumerate a family run many scheduler runs
+// inside one execution; every sched.Run calls it).
+func KeepAlive() {
+	watchdogMu.Lock()
+	if !watchdogAt.IsZero() {
+		watchdogAt = time.Now()
+	}
+	watchdogMu.Unlock()
+}
 
 // WatchdogLimit is the per-execution hang detector (machinery error, exit 3).
 var WatchdogLimit = 120 * time.Second
